@@ -137,51 +137,68 @@ theorem write_ok' {w : SliceWriter} {d : Bytes} (hw : w.pos ≤ w.inner.length) 
 theorem asRef_ok {w : SliceWriter} (hw : w.pos ≤ w.inner.length) : w.asRef = .ok (w.inner.take w.pos) := by
   unfold SliceWriter.asRef; rw [if_neg (by omega)]
 
-/-- what `pub_info` holds: the code's result for every output length and tag -/
-theorem pubInfo1pu_eq (n : Nat) (tag : Bytes) :
-    pubInfo1pu n tag = if tag.length ≤ 124 then .ok (be32 (n * 8) ++ tagPart tag) else .err .exceededBuffer := by
-  unfold pubInfo1pu
-  have hn0 : (SliceWriter.new 132).inner.length = 132 := by simp [SliceWriter.new]
-  have hp0 : (SliceWriter.new 132).pos = 0 := rfl
-  obtain ⟨w1, e1, l1, p1, t1⟩ := write_ok' (w := SliceWriter.new 132) (d := be32 (n * 8)) (by omega) (by rw [hn0, hp0]; simp)
-  rw [hp0] at p1 t1
-  rw [hn0] at l1
-  simp only [List.take_zero, List.nil_append, be32_length, Nat.zero_add] at p1 t1
-  simp only [e1, Res.ok_bind]
-  cases tag with
-  | nil =>
-    simp only [List.isEmpty_nil, if_true, Res.pure_eq, Res.ok_bind]
-    rw [asRef_ok (by omega), t1]
-    simp [tagPart]
-  | cons x xs =>
-    simp only [List.isEmpty_cons, Bool.false_eq_true, if_false]
-    obtain ⟨w2, e2, l2, p2, t2⟩ := write_ok' (w := w1) (d := be32 (x :: xs).length) (by omega) (by rw [p1, l1]; simp)
-    rw [t1] at t2
-    rw [p1] at p2
-    rw [l1] at l2
-    simp only [be32_length] at p2
-    simp only [e2, Res.ok_bind]
-    by_cases hl : (x :: xs).length ≤ 124
-    · obtain ⟨w3, e3, l3, p3, t3⟩ := write_ok' (w := w2) (d := x :: xs) (by omega) (by rw [p2, l2]; omega)
-      rw [e3, if_pos hl]
-      simp only [Res.ok_bind]
-      rw [asRef_ok (by rw [p3, l3, p2, l2]; omega), t3, t2]
-      simp [tagPart, lp, List.append_assoc]
-    · rw [write_full (by rw [p2, l2]; omega), if_neg hl]
-      rfl
+theorem tagPart_length (t : Bytes) : (tagPart t).length = if t.isEmpty then 0 else 4 + t.length := by
+  unfold tagPart
+  split <;> simp [lp]
 
-theorem pubInfo1pu_ne_panic (n : Nat) (tag : Bytes) : pubInfo1pu n tag ≠ .panic := by
-  rw [pubInfo1pu_eq]; split <;> simp
+/-- what `pub_info` holds, for EVERY buffer size, output length and tag: the code's result -/
+theorem pubInfo1puCap_eq (cap n : Nat) (tag : Bytes) :
+    pubInfo1puCap cap n tag =
+      if 4 + (tagPart tag).length ≤ cap then .ok (be32 (n * 8) ++ tagPart tag) else .err .exceededBuffer := by
+  unfold pubInfo1puCap
+  have hn0 : (SliceWriter.new cap).inner.length = cap := by simp [SliceWriter.new]
+  have hp0 : (SliceWriter.new cap).pos = 0 := rfl
+  by_cases h4 : 4 ≤ cap
+  · obtain ⟨w1, e1, l1, p1, t1⟩ := write_ok' (w := SliceWriter.new cap) (d := be32 (n * 8)) (by omega)
+      (by rw [hn0, hp0]; simp; omega)
+    rw [hp0] at p1 t1
+    rw [hn0] at l1
+    simp only [List.take_zero, List.nil_append, be32_length, Nat.zero_add] at p1 t1
+    simp only [e1, Res.ok_bind]
+    cases tag with
+    | nil =>
+      simp only [List.isEmpty_nil, if_true, Res.pure_eq, Res.ok_bind]
+      rw [asRef_ok (by omega), t1, if_pos (show 4 + (tagPart ([] : Bytes)).length ≤ cap by simp [tagPart]; omega)]
+      simp [tagPart]
+    | cons x xs =>
+      have htl : (tagPart (x :: xs)).length = 4 + (xs.length + 1) := by simp [tagPart, lp]
+      simp only [List.isEmpty_cons, Bool.false_eq_true, if_false]
+      by_cases h8 : 8 ≤ cap
+      · obtain ⟨w2, e2, l2, p2, t2⟩ := write_ok' (w := w1) (d := be32 (x :: xs).length) (by omega)
+          (by rw [p1, l1]; simp; omega)
+        rw [t1] at t2
+        rw [p1] at p2
+        rw [l1] at l2
+        simp only [be32_length] at p2
+        simp only [e2, Res.ok_bind]
+        by_cases hl : 8 + (x :: xs).length ≤ cap
+        · obtain ⟨w3, e3, l3, p3, t3⟩ := write_ok' (w := w2) (d := x :: xs) (by omega) (by rw [p2, l2]; omega)
+          rw [e3, if_pos (show 4 + (tagPart (x :: xs)).length ≤ cap by rw [htl]; simp at hl; omega)]
+          simp only [Res.ok_bind]
+          rw [asRef_ok (by rw [p3, l3, p2, l2]; omega), t3, t2]
+          simp [tagPart, lp, List.append_assoc]
+        · rw [write_full (by rw [p2, l2]; omega),
+            if_neg (show ¬ 4 + (tagPart (x :: xs)).length ≤ cap by rw [htl]; simp at hl; omega)]
+          rfl
+      · rw [write_full (by rw [p1, l1]; simp; omega),
+          if_neg (show ¬ 4 + (tagPart (x :: xs)).length ≤ cap by rw [htl]; omega)]
+        rfl
+  · have e1 : (SliceWriter.new cap).write (be32 (n * 8)) = .err .exceededBuffer :=
+      write_full (w := SliceWriter.new cap) (d := be32 (n * 8)) (by rw [hn0, hp0]; simp; omega)
+    simp only [e1, Res.err_bind]
+    rw [if_neg (by omega)]
 
-/-- the 132-byte stack buffer is never overrun -/
-theorem pubInfo1pu_bounded {n : Nat} {tag b : Bytes} (h : pubInfo1pu n tag = .ok b) : b.length ≤ 132 := by
-  rw [pubInfo1pu_eq] at h
+theorem pubInfo1puCap_ne_panic (cap n : Nat) (tag : Bytes) : pubInfo1puCap cap n tag ≠ .panic := by
+  rw [pubInfo1puCap_eq]; split <;> simp
+
+/-- the stack buffer is never overrun, whatever its size -/
+theorem pubInfo1puCap_bounded {cap n : Nat} {tag b : Bytes} (h : pubInfo1puCap cap n tag = .ok b) : b.length ≤ cap := by
+  rw [pubInfo1puCap_eq] at h
   split at h
   · rename_i hl
     injection h with h
     subst h
-    unfold tagPart
-    split <;> simp [lp] <;> omega
+    simp; omega
   · cases h
 
 /-! ### key exchange -/
@@ -235,16 +252,17 @@ theorem deriveEsBytes_eq (D : DhOps) (hash : Bytes → Bytes) (hlen : ∀ x, (ha
   · rename_i hn
     exact res_bind_congr fun z => takeKey_ok (by rw [hlen]; omega)
 
-theorem derive1puBytes_eq (D : DhOps) (hash : Bytes → Bytes) (hlen : ∀ x, (hash x).length = 32) (eph snd rcp : Key)
-    (alg apu apv tag : Bytes) (receive : Bool) (n : Nat) :
-    derive1puBytes D hash eph snd rcp alg apu apv tag receive n =
+theorem derive1puBytesCap_eq (cap : Nat) (D : DhOps) (hash : Bytes → Bytes) (hlen : ∀ x, (hash x).length = 32)
+    (eph snd rcp : Key) (alg apu apv tag : Bytes) (receive : Bool) (n : Nat) :
+    derive1puBytesCap cap D hash eph snd rcp alg apu apv tag receive n =
       if n > 32 then .err .unsupported
       else if tag.length > 128 then .err .unsupported
       else exchange D eph rcp receive >>= fun ze =>
         exchange D snd rcp receive >>= fun zs =>
-          if tag.length ≤ 124 then .ok ((hash (puInput ze zs alg apu apv (be32 (n * 8) ++ tagPart tag))).take n)
+          if 4 + (tagPart tag).length ≤ cap then
+            .ok ((hash (puInput ze zs alg apu apv (be32 (n * 8) ++ tagPart tag))).take n)
           else .err .exceededBuffer := by
-  unfold derive1puBytes
+  unfold derive1puBytesCap
   by_cases hn : n > 32
   · rw [if_pos hn, if_pos hn]
   · rw [if_neg hn, if_neg hn]
@@ -252,8 +270,8 @@ theorem derive1puBytes_eq (D : DhOps) (hash : Bytes → Bytes) (hlen : ∀ x, (h
     · rw [if_pos ht, if_pos ht]
     · rw [if_neg ht, if_neg ht]
       refine res_bind_congr fun ze => res_bind_congr fun zs => ?_
-      rw [pubInfo1pu_eq]
-      by_cases hl : tag.length ≤ 124
+      rw [pubInfo1puCap_eq]
+      by_cases hl : 4 + (tagPart tag).length ≤ cap
       · simp only [if_pos hl, Res.ok_bind]
         exact takeKey_ok (by rw [hlen]; omega)
       · simp only [if_neg hl, Res.err_bind]
@@ -273,10 +291,10 @@ theorem deriveEsBytes_ne_panic (D : DhOps) (hash : Bytes → Bytes) (hlen : ∀ 
     · exact exchange_ne_panic _ _ _ _
     · intro a; simp
 
-theorem derive1puBytes_ne_panic (D : DhOps) (hash : Bytes → Bytes) (hlen : ∀ x, (hash x).length = 32) (eph snd rcp : Key)
-    (alg apu apv tag : Bytes) (receive : Bool) (n : Nat) :
-    derive1puBytes D hash eph snd rcp alg apu apv tag receive n ≠ .panic := by
-  rw [derive1puBytes_eq D hash hlen]
+theorem derive1puBytesCap_ne_panic (cap : Nat) (D : DhOps) (hash : Bytes → Bytes) (hlen : ∀ x, (hash x).length = 32)
+    (eph snd rcp : Key) (alg apu apv tag : Bytes) (receive : Bool) (n : Nat) :
+    derive1puBytesCap cap D hash eph snd rcp alg apu apv tag receive n ≠ .panic := by
+  rw [derive1puBytesCap_eq cap D hash hlen]
   split
   · simp
   · split
@@ -314,16 +332,16 @@ theorem es_agree (D : DhOps) (L : DhLaws D) (hash : Bytes → Bytes) (t : Target
     unfold deriveEsBytes
     rw [exchange_agree D L c e r he hr]
 
-theorem pu_agree (D : DhOps) (L : DhLaws D) (hash : Bytes → Bytes) (t : Target) (c : Curve) (e s r : Bytes)
+theorem pu_agree (cap : Nat) (D : DhOps) (L : DhLaws D) (hash : Bytes → Bytes) (t : Target) (c : Curve) (e s r : Bytes)
     (he : L.valid c e) (hs : L.valid c s) (hr : L.valid c r) (alg apu apv tag : Bytes) :
-    deriveKeyEcdh1pu D hash t (Key.full D c e) (Key.full D c s) (Key.public D c r) alg apu apv tag false =
-      deriveKeyEcdh1pu D hash t (Key.public D c e) (Key.public D c s) (Key.full D c r) alg apu apv tag true := by
-  unfold deriveKeyEcdh1pu fromKeyDerivation
+    deriveKeyEcdh1puCap cap D hash t (Key.full D c e) (Key.full D c s) (Key.public D c r) alg apu apv tag false =
+      deriveKeyEcdh1puCap cap D hash t (Key.public D c e) (Key.public D c s) (Key.full D c r) alg apu apv tag true := by
+  unfold deriveKeyEcdh1puCap fromKeyDerivation
   cases t.keyLen with
   | none => rfl
   | some n =>
-    show derive1puBytes _ _ _ _ _ _ _ _ _ _ _ = derive1puBytes _ _ _ _ _ _ _ _ _ _ _
-    unfold derive1puBytes
+    show derive1puBytesCap _ _ _ _ _ _ _ _ _ _ _ _ = derive1puBytesCap _ _ _ _ _ _ _ _ _ _ _ _
+    unfold derive1puBytesCap
     rw [exchange_agree D L c e r he hr, exchange_agree D L c s r hs hr]
 
 /-! ### the hashed string is the standards' OtherInfo layout -/
@@ -336,35 +354,37 @@ theorem esBytes_matches (D : DhOps) (hash : Bytes → Bytes) (hlen : ∀ x, (has
   rw [esInput_eq]
   simp [Spec.esKey, Spec.round, Spec.esOtherInfo, Spec.otherInfo, Spec.datalenData, lp, Nat.mul_comm, List.append_assoc]
 
-theorem puBytes_matches (D : DhOps) (hash : Bytes → Bytes) (hlen : ∀ x, (hash x).length = 32) (eph snd rcp : Key)
-    (alg apu apv tag : Bytes) (receive : Bool) (n : Nat) (hn : n ≤ 32) (ht : tag.length ≤ 124) (ze zs : Bytes)
-    (hze : exchange D eph rcp receive = .ok ze) (hzs : exchange D snd rcp receive = .ok zs) :
-    derive1puBytes D hash eph snd rcp alg apu apv tag receive n = .ok (Spec.puKey hash ze zs alg apu apv tag n) := by
-  rw [derive1puBytes_eq D hash hlen, if_neg (by omega), if_neg (by omega), hze, hzs]
+theorem puBytes_matches (cap : Nat) (D : DhOps) (hash : Bytes → Bytes) (hlen : ∀ x, (hash x).length = 32) (eph snd rcp : Key)
+    (alg apu apv tag : Bytes) (receive : Bool) (n : Nat) (hn : n ≤ 32) (ht : tag.length ≤ 128) (hcap : tag.length + 8 ≤ cap)
+    (ze zs : Bytes) (hze : exchange D eph rcp receive = .ok ze) (hzs : exchange D snd rcp receive = .ok zs) :
+    derive1puBytesCap cap D hash eph snd rcp alg apu apv tag receive n = .ok (Spec.puKey hash ze zs alg apu apv tag n) := by
+  rw [derive1puBytesCap_eq cap D hash hlen, if_neg (by omega), if_neg (by omega), hze, hzs]
   simp only [Res.ok_bind]
-  rw [if_pos ht, puInput_eq]
+  rw [if_pos (by rw [tagPart_length]; split <;> omega), puInput_eq]
   simp [Spec.puKey, Spec.round, Spec.puOtherInfo, Spec.otherInfo, Spec.datalenData, tagPart, lp, Nat.mul_comm, List.append_assoc]
 
-/-- the tag lengths the explicit guard lets through but the 132-byte buffer cannot hold -/
-theorem puBytes_tag_125_128 (D : DhOps) (hash : Bytes → Bytes) (hlen : ∀ x, (hash x).length = 32) (eph snd rcp : Key)
-    (alg apu apv tag : Bytes) (receive : Bool) (n : Nat) (hn : n ≤ 32) (ht : 124 < tag.length) (ht' : tag.length ≤ 128)
+/-- a non-empty tag that the explicit guard lets through but the buffer cannot hold -/
+theorem puBytes_tag_exceeds_cap (cap : Nat) (D : DhOps) (hash : Bytes → Bytes) (hlen : ∀ x, (hash x).length = 32)
+    (eph snd rcp : Key) (alg apu apv tag : Bytes) (receive : Bool) (n : Nat) (hn : n ≤ 32) (hne : tag ≠ [])
+    (ht : cap < tag.length + 8) (ht' : tag.length ≤ 128)
     (ze zs : Bytes) (hze : exchange D eph rcp receive = .ok ze) (hzs : exchange D snd rcp receive = .ok zs) :
-    derive1puBytes D hash eph snd rcp alg apu apv tag receive n = .err .exceededBuffer := by
-  rw [derive1puBytes_eq D hash hlen, if_neg (by omega), if_neg (by omega), hze, hzs]
+    derive1puBytesCap cap D hash eph snd rcp alg apu apv tag receive n = .err .exceededBuffer := by
+  rw [derive1puBytesCap_eq cap D hash hlen, if_neg (by omega), if_neg (by omega), hze, hzs]
   simp only [Res.ok_bind]
-  rw [if_neg (by omega)]
+  have : tag.isEmpty = false := by cases tag <;> simp_all
+  rw [if_neg (by rw [tagPart_length, this]; simp; omega)]
 
 theorem es_len_guard (D : DhOps) (hash : Bytes → Bytes) (eph rcp : Key) (alg apu apv : Bytes) (receive : Bool) (n : Nat)
     (hn : n > 32) : deriveEsBytes D hash eph rcp alg apu apv receive n = .err .unsupported := by
   unfold deriveEsBytes; rw [if_pos hn]
 
-theorem pu_len_guard (D : DhOps) (hash : Bytes → Bytes) (eph snd rcp : Key) (alg apu apv tag : Bytes) (receive : Bool) (n : Nat)
-    (hn : n > 32) : derive1puBytes D hash eph snd rcp alg apu apv tag receive n = .err .unsupported := by
-  unfold derive1puBytes; rw [if_pos hn]
+theorem pu_len_guard (cap : Nat) (D : DhOps) (hash : Bytes → Bytes) (eph snd rcp : Key) (alg apu apv tag : Bytes) (receive : Bool)
+    (n : Nat) (hn : n > 32) : derive1puBytesCap cap D hash eph snd rcp alg apu apv tag receive n = .err .unsupported := by
+  unfold derive1puBytesCap; rw [if_pos hn]
 
-theorem pu_tag_guard (D : DhOps) (hash : Bytes → Bytes) (eph snd rcp : Key) (alg apu apv tag : Bytes) (receive : Bool) (n : Nat)
-    (ht : tag.length > 128) : derive1puBytes D hash eph snd rcp alg apu apv tag receive n = .err .unsupported := by
-  unfold derive1puBytes
+theorem pu_tag_guard (cap : Nat) (D : DhOps) (hash : Bytes → Bytes) (eph snd rcp : Key) (alg apu apv tag : Bytes) (receive : Bool)
+    (n : Nat) (ht : tag.length > 128) : derive1puBytesCap cap D hash eph snd rcp alg apu apv tag receive n = .err .unsupported := by
+  unfold derive1puBytesCap
   by_cases hn : n > 32
   · rw [if_pos hn]
   · rw [if_neg hn, if_pos ht]
